@@ -198,7 +198,7 @@ PROPS = {
             {"kind": "verus", "unit": "seqmap"},
         ],
         "unreached": [
-            "of XSequence::chain the emptiness shortcuts and downcasts before the extracted statements (V-seqchain proves the representability guard, the flattening, the exactly shifted midpoints and that they stay sorted; the Chain arm of len is under contract); len on Map/Zip/Slice, get on Zip (get on Map is under contract: f applied to what the inner element answers) (macros over dyn Any downcasts, Cow, iterator chains: outside Verus' dialect; BigInt promotion closure makes them intractable for CBMC)",
+            "of XSequence::chain the emptiness shortcuts and downcasts before the extracted statements (V-seqchain proves the representability guard, the flattening, the exactly shifted midpoints and that they stay sorted; the Chain arm of len is under contract); len on Map/Zip/Slice, the index native `get` is under contract from the statement after the downcast on; get on Zip (get on Map is under contract: f applied to what the inner element answers) (macros over dyn Any downcasts, Cow, iterator chains: outside Verus' dialect; BigInt promotion closure makes them intractable for CBMC)",
             "of push / rpush / insert / pop / set / swap the prefix before the extracted statements (argument evaluation, downcast, the finiteness test and the allocation pre-flight); every other native builtin body; Map/Zip representations (call the evaluator); include.rs",
         ],
         "assumptions": ["LazyBigint operations by the contracts unit V-int proves (canonical representation of the mathematical result)",
